@@ -665,7 +665,7 @@ func run(c Case) engine.Result {
 			cls = "nontermination|" + c.Label
 		}
 		if kind == "blocked" {
-			cls = "blocked@" + site + "|" + strings.Join(strings.Fields(c.Label)[:min(2, len(strings.Fields(c.Label)))], " ")
+			cls = "blocked@" + site // one class per place where the body is parked (each class costs three 90 s replays to confirm)
 		}
 		return engine.Result{NonTrivial: true, Outcome: kind, Findings: []engine.Finding{{
 			Class: cls, What: fmt.Sprintf("%s (%s): %s", kind, c.Label, firstLine(msg)), Detail: c}}}
